@@ -69,6 +69,8 @@ func BaseGraph(variant int) *Graph {
 		n.F["bo"] = k%2 == 1
 		n.F["f"] = float64(k) + 0.5
 		n.F["mi"] = k * 10
+		n.F["title"] = "t" + tag
+		n.F["dual"] = "d" + tag
 		n.F["strs"] = L_("x"+tag, "y"+tag)
 		n.F["ints"] = L_(k, k+1, k+2)
 	}
@@ -143,6 +145,8 @@ type Run struct {
 	Log    []CallKey
 	Args   []ArgRecord
 	fsb    *fsBuilder
+	Rep    func(n *Node) interface{} // mixed graphs: representation of a node where the carrier is free (nil = the strategy's own)
+	Probe  []string                  // precedence probes: which lower-precedence path answered
 }
 
 func NewRun(g *Graph) *Run { return &Run{G: g, Faults: map[CallKey]FaultKind{}} }
